@@ -3,6 +3,7 @@
 seeds and prints which ones are caught. usage: redrill.py [--tier quick] [--only C07-D,C19-C] seed [seed...]
 Nothing is stored: this measures how robust the detections are across seeds."""
 import json, os, subprocess, sys, shutil
+ROOT = os.path.dirname(os.path.dirname(os.path.abspath(__file__)))
 ENV = dict(os.environ, GOFLAGS="-mod=mod", GOPROXY="off", GOSUMDB="off", GOTOOLCHAIN="local")
 def sh(cmd, cwd=None, env=None, timeout=7200):
     p = subprocess.run(cmd, shell=True, cwd=cwd, env=env or ENV, stdout=subprocess.PIPE, stderr=subprocess.STDOUT, timeout=timeout)
@@ -14,26 +15,26 @@ while i < len(a):
     if a[i] == "--tier": tier = a[i+1]; i += 2
     elif a[i] == "--only": only = set(a[i+1].split(",")); i += 2
     else: seeds.append(a[i]); i += 1
-names = sorted(d for d in os.listdir("/verif/seeded") if os.path.exists(f"/verif/seeded/{d}/patch.diff"))
+names = sorted(d for d in os.listdir(f"{ROOT}/seeded") if os.path.exists(f"{ROOT}/seeded/{d}/patch.diff"))
 if only: names = [n for n in names if n in only]
 missed = []
 for n in names:
     prop = n.split("-")[0]
-    wt = f"/tmp/redrill-{n}"
+    wt = f"/tmp/redrill-{os.getpid()}-{n}"
     sh(f"git -C /repo worktree remove --force {wt}"); shutil.rmtree(wt, ignore_errors=True)
     sh(f"git -C /repo worktree add --detach {wt} HEAD")
     try:
-        rc, o = sh(f"git apply /verif/seeded/{n}/patch.diff || git apply -3 /verif/seeded/{n}/patch.diff", cwd=wt)
+        rc, o = sh(f"git apply {ROOT}/seeded/{n}/patch.diff || git apply -3 {ROOT}/seeded/{n}/patch.diff", cwd=wt)
         if rc != 0:
             print(n, "PATCH-DOES-NOT-APPLY"); continue
         res = []
         for s in seeds:
             env = dict(ENV, VERIF_REPO=wt, VERIF_SEED=s)
-            rc, o = sh(f"cd /verif && bin/check {prop} {tier}", env=env)
+            rc, o = sh(f"cd {ROOT} && bin/check {prop} {tier}", env=env)
             res.append(f"seed{s}={'caught' if rc == 1 else 'MISSED' if rc == 0 else 'exit%d' % rc}")
             if rc != 1: missed.append((n, s, rc))
         print(n, " ".join(res), flush=True)
     finally:
         sh(f"git -C /repo worktree remove --force {wt}"); shutil.rmtree(wt, ignore_errors=True)
-sh("rm -rf /verif/replays")
+sh(f"rm -rf {ROOT}/replays")
 print("missed:", missed)
